@@ -22,7 +22,9 @@ func compareHook(result int64) func(st *absint.State, call *ast.CallExpr, callee
 	}
 }
 
-func assertOK(st *absint.State, v absint.Val, typ string) (absint.Val, bool, bool) { return v, true, true }
+func assertOK(st *absint.State, v absint.Val, typ string) (absint.Val, bool, bool) {
+	return v, true, true
+}
 
 func checkEqual(c *core.Ctx, ids map[string]int64) {
 	p := c.Prog
@@ -174,7 +176,7 @@ func checkHash(c *core.Ctx, ids map[string]int64) {
 		case "TypeIDFloat":
 			// classes of Compare-equal floats whose bit patterns differ: ±0 and the NaNs
 			type cls struct {
-				name         string
+				name          string
 				isZero, isNaN bool
 			}
 			bad, n := "", 0
